@@ -116,6 +116,10 @@ def main(argv=None):
         if selftest_result is not None:
             print("selftest: %(mutants)d mutant(s): %(caught)d caught, %(stale)d stale, "
                   "%(missed)d missed; silent-on-normalised-copy=%(silent_ok)s; silent-on-rewrites=%(silent_on_rewrites)s" % selftest_result)
+            sc, rf = selftest_result.get("seeded_changes", {}), selftest_result.get("refactorings", {})
+            print("selftest: stored patches: %d/%d seeded change(s) of this property reported; %d refactoring(s): %d silent, %d not understood, %d false alarm(s)" % (
+                sum(1 for v in sc.values() if v == "caught"), len(sc), len(rf), sum(1 for v in rf.values() if v == "silent"),
+                sum(1 for v in rf.values() if v.startswith("not understood")), sum(1 for v in rf.values() if v == "FALSE ALARM")))
         if not args.no_evidence:
             report.write_evidence(
                 ctx, len(new), mod.EXPLANATION, mod.ASSUMPTIONS,
